@@ -148,7 +148,47 @@ def c01_ws2d(y, w, lam):
     cond = float(np.linalg.cond(A))
     # the counterexample is an exact-arithmetic one: demand a clear float64 discrepancy, scaled by conditioning
     tol = max(1e-6, 1e-13 * cond)
-    return {"violates": bool(err > tol), "err": err, "tol": tol, "z": z, "ref": ref}
+    out = {"violates": bool(err > tol), "err": err, "tol": tol, "z": z, "ref": ref}
+    if not out["violates"]:
+        # the exact-rational clause: the interpreted source run on Fractions must satisfy the normal equations identically
+        ex = _c01_exact_residual(y, w, lam)
+        if ex is not None and ex["max_residual"] != 0:
+            out = {"violates": True, "why": "executed in exact rational arithmetic the algorithm does not solve (W + lam D'D) z = W y",
+                   "max_residual": float(ex["max_residual"]), "row": ex["row"], "n": n}
+    return out
+
+
+def _c01_exact_residual(y, w, lam):
+    from fractions import Fraction as Fr
+    import hdc.algo.ops.ws2d as mod
+    f = getattr(mod.ws2d, "py_func", None)
+    if f is None:
+        return None
+    n = len(y)
+
+    def fr(v):
+        return Fr(v).limit_denominator(10**12) if isinstance(v, float) else Fr(str(v))
+    yy = np.array([fr(float(v)) for v in y], dtype=object)
+    ww = np.array([fr(float(v)) for v in w], dtype=object)
+    lm = fr(float(lam))
+    old = mod.zeros
+    mod.zeros = lambda k, *a, **kw: np.array([Fr(0)] * int(k), dtype=object)
+    try:
+        z = f(yy, lm, ww)
+    except Exception:  # noqa
+        return None
+    finally:
+        mod.zeros = old
+    worst, row = Fr(0), -1
+    for i in range(n):
+        acc = ww[i] * z[i]
+        for r in range(max(0, i - 2), min(n - 2, i + 1)):
+            co = {r: 1, r + 1: -2, r + 2: 1}
+            acc += lm * co[i] * (z[r] - 2 * z[r + 1] + z[r + 2])
+        res = abs(acc - ww[i] * yy[i])
+        if res > worst:
+            worst, row = res, i
+    return {"max_residual": worst, "row": row}
 
 
 # ------------------------------------------------------------------ C18
@@ -944,34 +984,41 @@ def _c04_accessor(data, nodata, p, mode, name):
     da = xr.DataArray(cube, dims=("time", "y", "x"), attrs={"nodata": nodata}, name=name)
     srange = np.arange(-2, 4.2, 0.2)
     problems = []
-    for pp in ([None] if mode == "nop" else [p, 0.5, 0.9, 0.3]):
-        kw = {}
-        if mode == "lc":
-            lc = xr.DataArray(np.array([[0.7, 0.3], [0.55, 0.45]]), dims=("y", "x"))
-            kw = {"lc": lc, "p": pp}
-        else:
-            kw = {"srange": srange}
-            if pp is not None:
-                kw["p"] = pp
-        ds = da.hdc.whit.whitsvc(nodata, **kw)
-        want = name or "band"
-        if set(ds.data_vars) != {want, "sgrid"}:
-            return {"violates": True, "why": f"dataset variables {list(ds.data_vars)}"}
-        if str(ds["sgrid"].dtype) != "float32":
-            return {"violates": True, "why": f"sgrid dtype {ds['sgrid'].dtype}"}
-        band = ds[want].transpose("time", "y", "x").values
-        for yy in range(2):
-            for xx in range(2):
-                series = cube[:, yy, xx].astype("float64")
-                sg = float(ds["sgrid"].values[yy, xx])
-                if mode == "lc":
-                    o, l = ops.ws2doptvplc(cube[:, yy, xx], nodata, pp, float(kw["lc"].values[yy, xx]))
-                elif pp is None:
-                    o, l = ops.ws2doptv(series, nodata, srange)
-                else:
-                    o, l = ops.ws2doptvp(series, nodata, pp, srange)
-                if not np.array_equal(band[:, yy, xx], o) or abs(sg - np.float32(np.log10(l))) > 1e-6:
-                    problems.append(f"pixel ({yy},{xx}) p={pp}: band/sgrid differ from the kernel selected by (lc, p)")
+    lc0 = xr.DataArray(np.array([[0.7, 0.3], [0.55, 0.45]]), dims=("y", "x"))
+    variants = [("lc stored as (y, x)", lc0), ("lc stored as (x, y)", lc0.transpose("x", "y")),
+                ("lc float32", lc0.astype("float32"))] if mode == "lc" else [("", None)]
+    for vname, lcv in variants:
+        for pp in ([None] if mode == "nop" else [p, 0.5, 0.9, 0.3]):
+            kw = {}
+            if mode == "lc":
+                kw = {"lc": lcv, "p": pp}
+            else:
+                kw = {"srange": srange}
+                if pp is not None:
+                    kw["p"] = pp
+            try:
+                ds = da.hdc.whit.whitsvc(nodata, **kw)
+            except Exception as e:  # noqa
+                return {"violates": True, "why": f"whitsvc {vname} raised {type(e).__name__}: {e}"[:300]}
+            want = name or "band"
+            if set(ds.data_vars) != {want, "sgrid"}:
+                return {"violates": True, "why": f"dataset variables {list(ds.data_vars)}"}
+            if str(ds["sgrid"].dtype) != "float32":
+                return {"violates": True, "why": f"sgrid dtype {ds['sgrid'].dtype}"}
+            band = ds[want].transpose("time", "y", "x").values
+            sgrid = ds["sgrid"].transpose("y", "x").values
+            for yy in range(2):
+                for xx in range(2):
+                    series = cube[:, yy, xx].astype("float64")
+                    sg = float(sgrid[yy, xx])
+                    if mode == "lc":
+                        o, l = ops.ws2doptvplc(cube[:, yy, xx], nodata, pp, float(lc0.values[yy, xx]))
+                    elif pp is None:
+                        o, l = ops.ws2doptv(series, nodata, srange)
+                    else:
+                        o, l = ops.ws2doptvp(series, nodata, pp, srange)
+                    if not np.array_equal(band[:, yy, xx], o) or abs(sg - np.float32(np.log10(l))) > 1e-6:
+                        problems.append(f"pixel ({yy},{xx}) p={pp} {vname}: band/sgrid differ from the kernel selected by (lc, p)")
     return {"violates": bool(problems), "why": problems[:3]}
 
 
